@@ -312,6 +312,9 @@ def build_series(col):
                 else:
                     mixed.append(v)
             return pd.Series(mixed, dtype=object)
+        if kind == 'obool' and len(vals) % 2 == 0:
+            # the flags as numpy scalars (what `[x > 3 for x in arr]` gives)
+            vals = [v if v is None else np.bool_(v) for v in vals]
         return pd.Series(vals, dtype=object)
     if kind == 'cat':
         extra = col.get('unused_categories')
